@@ -35,18 +35,27 @@ import (
 type c05mStepReader struct {
 	req  chan struct{}
 	data chan []byte
+	fail chan struct{} // closed: the source connection fails (Read returns an error)
 }
 
 func newC05mStepReader() *c05mStepReader {
-	return &c05mStepReader{req: make(chan struct{}, 1), data: make(chan []byte)}
+	return &c05mStepReader{req: make(chan struct{}, 1), data: make(chan []byte), fail: make(chan struct{})}
 }
+
+var errC05mSource = errors.New("source connection failed")
 
 func (r *c05mStepReader) Read(p []byte) (int, error) {
 	select {
 	case r.req <- struct{}{}:
 	default:
 	}
-	d, ok := <-r.data
+	var d []byte
+	var ok bool
+	select {
+	case d, ok = <-r.data:
+	case <-r.fail:
+		return 0, errC05mSource
+	}
 	if !ok {
 		return 0, io.EOF
 	}
@@ -394,6 +403,18 @@ func (d *c05mem) opRdbWriter(off, size int64) {
 	d.emit(fmt.Sprintf("mrdbw %d %d", off, size), res)
 }
 
+// firstSegPinned: the oldest stream segment is not the writer's current one (so it is
+// what blocks the writer: closed and referenced by a reader)
+func (d *c05mem) firstSegPinned() bool {
+	mc := d.mc
+	mc.mux.RLock()
+	defer mc.mux.RUnlock()
+	if len(mc.aofSegs) == 0 || mc.aofWriter == nil {
+		return false
+	}
+	return mc.aofSegs[0] != mc.aofWriter.currentSegment() && mc.aofSegs[0].readers.Load() > 0
+}
+
 func (d *c05mem) writerDone(w RdbChannelWriter) bool {
 	switch x := w.(type) {
 	case *MemoryRdbWriter:
@@ -437,10 +458,30 @@ func (d *c05mem) opRdbAppend(chunk []byte) {
 	d.emit("mrdba "+vfutil.Hex(chunk), res)
 }
 
+// opRdbFail: the source connection fails while the snapshot is being received
+// (the writer's Read returns an error): finishRdb(writer, err)
+func (d *c05mem) opRdbFail() {
+	sr := d.rdbSR
+	close(sr.fail)
+	synctest.Wait()
+	close(sr.data)
+	d.rdbW, d.rdbSR = nil, nil
+	d.snapS.live = false
+	d.snapS.done = false // a failed writer's snapshot is dropped
+	for _, vr := range d.readers {
+		if vr.snapS == d.snapS {
+			vr.mustEnd = true
+		}
+	}
+	synctest.Wait()
+	d.emit("mrdbf", "ok")
+}
+
 func (d *c05mem) opRdbClose() {
 	w, sr := d.rdbW, d.rdbSR
 	w.Close()
 	close(sr.data)
+	d.rdbBlocked = nil // a chunk the writer was blocked on is dropped with it (io.EOF)
 	d.rdbW, d.rdbSR = nil, nil
 	d.snapS.live = false
 	d.snapS.done = int64(len(d.snapS.bytes)) == d.snapS.size
@@ -464,6 +505,7 @@ func (d *c05mem) opAofWriter(off int64) {
 		if d.aofSR != nil {
 			close(d.aofSR.data)
 		}
+		d.aofBlocked = nil // the replaced writer's blocked chunk is dropped (io.EOF), never appended
 		d.aofW, d.aofSR = w, sr
 		if d.stream == nil || off != d.right() {
 			// accepted although not continuing the recorded history: the channel
@@ -547,6 +589,7 @@ func (d *c05mem) opAofClose() {
 	}
 	w.Close()
 	close(sr.data)
+	d.aofBlocked = nil // a chunk the writer was blocked on is dropped with it (io.EOF)
 	d.aofW, d.aofSR = nil, nil
 	synctest.Wait()
 	d.emit("maofc", "ok")
@@ -777,6 +820,15 @@ func (d *c05mem) step() bool {
 			d.opAofWriter(off)
 			d.s.Count("op_aof_replace")
 		})
+	} else if d.aofW != nil && d.aofBlocked != nil && d.firstSegPinned() {
+		// the writer is blocked on capacity: it can still be closed or replaced (its
+		// blocked chunk is dropped then). Only while the OLDEST segment is pinned by a
+		// reader: when the writer's own current segment is the oldest one, the dying
+		// writer may or may not run one more collector pass (ensureCapacityLocked selects
+		// between `spaceNotify` and `done`, both ready) and drop the segment it just
+		// closed — retention only, but not a function of the operations
+		add(3, func() { d.opAofClose(); d.s.Count("op_aof_close_blocked") })
+		add(3, func() { d.opAofWriter(d.right()); d.s.Count("op_aof_replace_blocked") })
 	} else if d.aofW == nil && d.rdbW == nil {
 		add(12, func() {
 			off := int64(100 + r.Intn(900))
@@ -806,6 +858,9 @@ func (d *c05mem) step() bool {
 			d.s.Count("op_rdb_append")
 		})
 		add(2, func() { d.opRdbClose(); d.s.Count("op_rdb_close_early") })
+		add(2, func() { d.opRdbFail(); d.s.Count("op_rdb_fail") })
+	} else if d.rdbW != nil && d.rdbBlocked != nil {
+		add(3, func() { d.opRdbClose(); d.s.Count("op_rdb_close_blocked") })
 	}
 	add(2, func() {
 		if d.aofW != nil && d.aofBlocked == nil && r.Chance(1, 2) {
@@ -940,8 +995,12 @@ func (d *c05mem) runScript(script string) {
 		case "mrdbw":
 			d.opRdbWriter(num(1), num(2))
 		case "mrdba":
-			if d.rdbW != nil {
+			if d.rdbW != nil && d.rdbBlocked == nil {
 				d.opRdbAppend(vfutil.UnHex(f[1]))
+			}
+		case "mrdbf":
+			if d.rdbW != nil && d.rdbBlocked == nil {
+				d.opRdbFail()
 			}
 		case "mrdbc":
 			if d.rdbW != nil {
@@ -950,7 +1009,7 @@ func (d *c05mem) runScript(script string) {
 		case "maofw":
 			d.opAofWriter(num(1))
 		case "maofa":
-			if d.aofW != nil {
+			if d.aofW != nil && d.aofBlocked == nil {
 				d.opAofAppend(vfutil.UnHex(f[1]))
 			}
 		case "maofc":
@@ -1045,10 +1104,8 @@ func TestVerifC05mem(t *testing.T) {
 		if len(tr) > 40 {
 			tr = tr[len(tr)-40:]
 		}
-		s.Violate("harness-watchdog", fmt.Sprintf("the harness did not finish within %v", limit),
-			map[string]interface{}{"last_ops": strings.Join(tr, " ; ")})
-		s.Close()
-		os.Exit(3)
+		// an infrastructure failure (broken tie), not a violation
+		vfutil.WatchdogExit(s, fmt.Sprintf("the harness did not finish within %v; last ops: %s", limit, strings.Join(tr, " ; ")))
 	})
 	defer wd.Stop()
 
